@@ -220,6 +220,27 @@ theorem toReader_spine (b : Buf) (all : Bool) (h : (toReader b all).res ≠ .pan
     have := hs (by simp) t ht
     cases all <;> simp_all [ofSR]
 
+theorem intoWriterF_spine : ∀ (b : Buf), (intoWriterF b).res ≠ .panic → ∀ t ∈ spine b, t ∈ (intoWriterF b).waited
+  | .err _, _, t, ht => by simp [spine] at ht
+  | .bytes _, _, t, ht => by simp [spine] at ht
+  | .readerAt _, _, t, ht => by simp [spine] at ht
+  | .stream _ _ _ _, _, t, ht => by simp [spine] at ht
+  | .cloned _ _ _, _, t, ht => by simp [spine] at ht
+  | .task base dg t0 r, hnp, t, ht => by
+    have ih := intoWriterF_spine base
+    simp only [intoWriterF] at hnp ⊢
+    cases hb : (intoWriterF base).res with
+    | panic => simp [hb, MOut.panic] at hnp
+    | err k => simp only []; exact mem_snoc_of ht (ih (by rw [hb]; simp))
+    | ok d s => simp only []; exact mem_snoc_of ht (ih (by rw [hb]; simp))
+  | .eh base dg, hnp, t, ht => by
+    have hs := cr_spine (.eh base dg) true
+    simp only [intoWriterF] at hnp ⊢
+    cases hb : (cr (.eh base dg) true).res with
+    | panic => simp [hb, MOut.panic] at hnp
+    | err k => simp only []; exact hs (by rw [hb]; simp) t ht
+    | ok d s => simp only []; exact hs (by rw [hb]; simp) t ht
+
 /-- the methods that release the buffer (everything but `GetSizeBytes`) -/
 def Method.consumes : Method → Bool
   | .getSizeBytes => false
@@ -236,5 +257,6 @@ theorem call_spine (b : Buf) (m : Method) (hm : m.consumes = true) (h : (call b 
   | toChunkReader off all => exact toChunkReader_spine b off all h
   | toReader all => exact toReader_spine b all h
   | discard => exact discard_spine b h
+  | intoWriterFailing k => exact intoWriterF_spine b h
 
 end BB.Mux
